@@ -384,6 +384,11 @@ inline void future_async_mt(const vf::opts &o, vf::report &R, vf::team &T, uint6
 }
 
 // ---------------------------------------------------------------------------------------------
+// type-erased, move-only holder for the closures returned by promise::bind()
+struct bound_any { virtual ~bound_any() = default; virtual bool call() = 0; };
+template <typename F> struct bound_impl : bound_any { F f; explicit bound_impl(F &&x) : f(std::move(x)) {} bool call() override { return (bool)f(); } };
+template <typename F> std::unique_ptr<bound_any> make_bound(F &&f) { return std::make_unique<bound_impl<std::decay_t<F>>>(std::move(f)); }
+
 // single-thread promise lifecycle histories: promises are moved, move-assigned (over armed and over empty ones), invoked,
 // dropped and destroyed; after every step every future must be in exactly the state the statement prescribes.
 inline void promise_history(const vf::opts &o, vf::report &R, uint64_t histories) {
@@ -399,6 +404,11 @@ inline void promise_history(const vf::opts &o, vf::report &R, uint64_t histories
         std::optional<cocls::promise<P>> slot[NS];
         int owner[NS];                     // which future the promise in the slot points to (-1 none / empty promise)
         for (int i = 0; i < NS; i++) owner[i] = -1;
+        // closures made by promise::bind(args): they OWN the resolution right - calling resolves with the bound arguments (once),
+        // destroying an uncalled closure resolves to no-value like any destroyed promise
+        constexpr int NB = 3;
+        std::unique_ptr<bound_any> bound[NB]; int bowner[NB]; outcome bwhat[NB];
+        for (int i = 0; i < NB; i++) bowner[i] = -1;
         int nf = 0;
         std::string trace, err;
         int len = 3 + (int)r.below(18);
@@ -460,7 +470,27 @@ inline void promise_history(const vf::opts &o, vf::report &R, uint64_t histories
                 trace += "~s" + std::to_string(a) + " ";
                 if (owner[a] >= 0) model[owner[a]].state = PS_CANCELED;
                 slot[a].reset(); owner[a] = -1;
-            } else if (x < 92 && slot[a]) { // self move-assignment must change nothing
+            } else if (x < 89 && slot[a]) { // bind: the promise moves into a closure (slot a keeps an empty promise)
+                int b2 = (int)r.below(NB), how = (int)r.below(3);
+                trace += "s" + std::to_string(a) + ".bind(" + (how == 0 ? "value" : how == 1 ? "exception" : "drop") + ")->b" + std::to_string(b2) + " ";
+                if (bound[b2]) { if (bowner[b2] >= 0) model[bowner[b2]].state = PS_CANCELED; bound[b2].reset(); bowner[b2] = -1; } // replaced closure is destroyed
+                outcome w; if (how == 0) { w.state = PS_VALUE; w.val = 800 + (uint64_t)step; } else if (how == 1) { w.state = PS_EXC; w.code = 900 + step; } else w.state = PS_CANCELED;
+                if (how == 0) bound[b2] = make_bound(slot[a]->bind(800 + step)); else if (how == 1) bound[b2] = make_bound(slot[a]->bind(vf::make_exc(900 + step))); else bound[b2] = make_bound(slot[a]->bind(cocls::drop));
+                bowner[b2] = owner[a]; bwhat[b2] = w; owner[a] = -1;
+            } else if (x < 91) { // call or destroy a bound closure
+                int b2 = (int)r.below(NB);
+                if (!bound[b2]) continue;
+                if (r.chance(2, 3)) {
+                    trace += "b" + std::to_string(b2) + "() ";
+                    bool ok = bound[b2]->call();
+                    if (ok != (bowner[b2] >= 0)) err = std::string("bound function reported ") + (ok ? "success" : "failure") + (bowner[b2] >= 0 ? " although it owns an armed promise" : " although its promise was already used");
+                    if (bowner[b2] >= 0) { model[bowner[b2]] = bwhat[b2]; bowner[b2] = -1; }
+                } else {
+                    trace += "~b" + std::to_string(b2) + " ";
+                    if (bowner[b2] >= 0) model[bowner[b2]].state = PS_CANCELED;
+                    bound[b2].reset(); bowner[b2] = -1;
+                }
+            } else if (x < 94 && slot[a]) { // self move-assignment must change nothing
                 trace += "s" + std::to_string(a) + "=move(self) ";
                 cocls::promise<P> &ref = *slot[a];
                 *slot[a] = std::move(ref);
@@ -468,6 +498,7 @@ inline void promise_history(const vf::opts &o, vf::report &R, uint64_t histories
             check(trace.c_str());
         }
         for (int i = 0; i < NS; i++) if (slot[i]) { if (owner[i] >= 0) model[owner[i]].state = PS_CANCELED; slot[i].reset(); owner[i] = -1; }
+        for (int i = 0; i < NB; i++) if (bound[i]) { if (bowner[i] >= 0) model[bowner[i]].state = PS_CANCELED; bound[i].reset(); bowner[i] = -1; }
         trace += "~all ";
         if (err.empty()) check("destruction of all promises");
         R.cases++;
@@ -475,6 +506,7 @@ inline void promise_history(const vf::opts &o, vf::report &R, uint64_t histories
             R.violation("monitor:resolution|promise_history", err, vf::jobj().kv("history", (unsigned long long)hn).kv("seed", (unsigned long long)o.seed).kv("ops", trace).kv("disagreement", err).str());
             for (int f = 0; f < nf; f++) (void)fut[f].release();
             for (int i = 0; i < NS; i++) if (slot[i]) { new (&*slot[i]) cocls::promise<P>(); }
+            for (int i = 0; i < NB; i++) (void)bound[i].release();
             continue;
         }
         for (int f = 0; f < nf; f++) fut[f].reset();
@@ -484,6 +516,48 @@ inline void promise_history(const vf::opts &o, vf::report &R, uint64_t histories
         }
         if (len >= 4) { R.nontrivial_cases++; R.sig(trace); }
         if (R.samples.size() < 2 && len > 8) R.sample(vf::jobj().kv("ops", trace).kv("result", "every future in the prescribed state after every step").str());
+    }
+}
+
+// ---------------------------------------------------------------------------------------------
+// ONE registered callback awaiter object used for a sequence of futures (the way call_fn_future_awaiter / future_conv objects are
+// reused): for every future - found already resolved at registration, or resolved later - the awaiter is released exactly once,
+// with the complete result of THAT future, and the future stays resolved.
+inline void callback_awaiter_reuse(const vf::opts &o, vf::report &R, uint64_t cases) {
+    vf::rng master(vf::mix(o.seed, 0x302));
+    for (uint64_t cn = 0; cn < cases && R.nviol() < 5; cn++) {
+        vf::rng r(master.next());
+        vf::set_crash_ctx(R.prop.c_str(), "callback_awaiter_reuse", o.seed, cn);
+        f_cb_awaiter<int> cb;
+        int nops = 2 + (int)r.below(5);
+        std::string trace, err;
+        std::vector<std::unique_ptr<cocls::future<int>>> keep;
+        for (int k = 0; k < nops && err.empty(); k++) {
+            bool before = r.chance(1, 2); int how = (int)r.below(3);
+            trace += std::string(before ? "resolved-before/" : "resolved-later/") + fa_name(how) + " ";
+            keep.push_back(std::make_unique<cocls::future<int>>());
+            cocls::future<int> &f = *keep.back();
+            cocls::promise<int> p = f.get_promise();
+            auto resolve = [&] { if (how == FA_VALUE) p(100 + k); else if (how == FA_EXC) p(vf::make_exc(200 + k)); else p(cocls::drop); };
+            f_wrec rec;
+            cb.f = &f; cb.rec = &rec;
+            if (before) resolve();
+            bool parked = f.operator co_await().subscribe(&cb);
+            if (before && parked) { err = "registration on an already resolved future was accepted (the awaiter would never be released)"; }
+            if (!before && !parked) { err = "registration on a pending future was refused"; }
+            if (err.empty()) { if (!parked) cb.on_release(); else resolve(); }
+            outcome expect; if (how == FA_VALUE) { expect.state = PS_VALUE; expect.val = 100 + (uint64_t)k; } else if (how == FA_EXC) { expect.state = PS_EXC; expect.code = 200 + k; } else expect.state = PS_CANCELED;
+            if (err.empty() && rec.released.load() != 1) err = "callback awaiter released " + std::to_string(rec.released.load()) + " times for operation " + std::to_string(k);
+            if (err.empty() && !(rec.o == expect)) err = "callback awaiter observed " + rec.o.str() + " instead of " + expect.str();
+            if (err.empty() && !f.ready()) err = "future is not ready any more after its waiter was served";
+            for (size_t j = 0; j < keep.size() && err.empty(); j++) if (!keep[j]->ready()) err = "an earlier, resolved future of the sequence turned back to pending";
+            if (!err.empty()) err = "operation " + std::to_string(k) + " on the same awaiter object: " + err;
+        }
+        R.cases++;
+        if (!err.empty()) { R.violation("monitor:wakeup|callback_awaiter_reuse", err, vf::jobj().kv("case", (unsigned long long)cn).kv("seed", (unsigned long long)o.seed).kv("ops", trace).str()); for (auto &k : keep) (void)k.release(); continue; }
+        R.nontrivial_cases++;
+        R.sig(trace);
+        if (R.samples.size() < 2) R.sample(vf::jobj().kv("ops", trace).kv("result", "released once per operation with that operation's result").str());
     }
 }
 
